@@ -6,6 +6,7 @@ import (
 	"net/http"
 	"net/http/httptest"
 	"net/url"
+	"strconv"
 	"strings"
 	"sync"
 
@@ -22,7 +23,7 @@ type defsLine struct {
 	Def        []string `json:"def"`
 	Verdict    string   `json:"verdict"`
 	VStrict    string   `json:"verdict_strict"`
-	VGroup     string   `json:"verdict_group"`        // the definition as the prefix of a group around the plain route "/a"
+	VGroup     string   `json:"verdict_group"` // the definition as the prefix of a group around the plain route "/a"
 	VGroupS    string   `json:"verdict_group_strict"`
 	Method     *string  `json:"method"`
 	Text       string   `json:"text"`
@@ -40,20 +41,34 @@ func init() {
 			close(defsJobs)
 			defsWG.Wait()
 		}
-		// options changed after routes exist
-		for _, after := range []bool{false, true} {
-			r := rux.New()
-			if after {
-				r.GET("/a", nopHandler)
-			}
-			var pan any
-			func() {
-				defer func() { pan = recover() }()
-				r.WithOptions(rux.StrictLastSlash)
-			}()
-			s.Compared++
-			if (pan != nil) != after {
-				s.mismatch(map[string]any{"kind": "defs", "aspect": "verdict", "what": fmt.Sprintf("WithOptions after routes exist=%v: panicked=%v", after, pan != nil)}, nil)
+		// options changed after routes exist - however many (the values around the boundaries of the integer types included)
+		for _, nroutes := range []int{0, 1, 2, 255, 256, 257, 32767, 32768, 65535, 65536, 65537} {
+			for oi, opt := range []func(*rux.Router){rux.StrictLastSlash, rux.EnableCaching} {
+				r := rux.New()
+				for i := 0; i < nroutes; i++ {
+					if i%2 == 0 {
+						r.GET("/a"+strconv.Itoa(i), nopHandler)
+					} else {
+						r.GET("/d"+strconv.Itoa(i)+"/{id}", nopHandler)
+					}
+				}
+				var pan, lp any
+				func() {
+					defer func() { pan = recover() }()
+					r.WithOptions(opt)
+				}()
+				s.Compared++
+				if (pan != nil) != (nroutes > 0) {
+					s.mismatch(map[string]any{"kind": "defs", "aspect": "verdict", "what": fmt.Sprintf("WithOptions (option %d) on a router with %d routes: panicked=%v", oi, nroutes, pan != nil)}, nil)
+				}
+				func() { // whatever registration accepted, lookups never panic
+					defer func() { lp = recover() }()
+					r.Match("GET", "/d1/7")
+					r.Match("GET", "/d1/7")
+				}()
+				if lp != nil {
+					s.mismatch(map[string]any{"kind": "defs", "aspect": "lookup-panic", "what": fmt.Sprintf("router with %d routes after WithOptions (option %d, panicked=%v): Match panicked: %v", nroutes, oi, pan != nil, lp)}, nil)
+				}
 			}
 		}
 	}}
@@ -139,6 +154,15 @@ func defsRun(s *Summary, l defsLine) {
 				return
 			}
 			// the registration entry points take turns: every one of them applies the same checks
+			if method == "GET" && handler != nil && oi >= 4 {
+				// Any() registers the route for every method: the same checks, also inside a group without middleware
+				if oi == 4 {
+					r.Any(path, handler, mw...)
+				} else {
+					r.Group("/", func() { r.Any(path, handler, mw...) })
+				}
+				return
+			}
 			switch oi % 4 {
 			case 1:
 				r.AddNamed("n", path, handler, method).Use(mw...)
